@@ -265,7 +265,7 @@ def draw_cfg(rng, ws_density):
 
 def make_strategy():
     from hypothesis import strategies as st
-    return st.tuples(gen_c.c_program(max_depth=4, max_funcs=2), st.integers(0, 2 ** 32 - 1), st.integers(0, 2 ** 32 - 1))
+    return st.tuples(gen_c.c_program(max_depth=4, max_funcs=2, pp_split=True), st.integers(0, 2 ** 32 - 1), st.integers(0, 2 ** 32 - 1))
 
 
 def to_case(v):
@@ -316,7 +316,7 @@ def main(ctx):
              {'mod_full_brace_if_chain': '3', 'mod_full_brace_nl_block_rem_mlcond': 'true'}, {'mod_full_brace_if_chain': '2'}]
     nshape = 0
     import itertools
-    for name, src in itertools.chain(gen_c.brace_shapes(2 if quick else 3), gen_c.brace_shapes_ml(2)):
+    for name, src in itertools.chain(gen_c.brace_shapes(2 if quick else 3), gen_c.brace_shapes_ml(2), gen_c.brace_shapes_cmt(2)):
         nshape += 1
         for bc in bcfgs:
             cases.append(family.Case(src.encode(), 'C', bc, {'kind': 'brace-shape', 'file': 'shape:' + name}))
@@ -326,6 +326,12 @@ def main(ctx):
         for pc_ in ({'mod_full_paren_if_bool': 'true'}, {'mod_full_paren_assign_bool': 'true'}, {'mod_full_paren_return_bool': 'true'},
                     {'mod_paren_on_return': 'add'}, {'mod_paren_on_return': 'remove'}):
             cases.append(family.Case(src.encode(), 'C', dict(pc_), {'kind': 'paren-shape', 'file': 'shape:' + name}))
+    # enumerated conditional groups x the options that append a comment to #else / #endif, in the languages with both comment styles
+    for name, src in gen_c.ifdef_shapes():
+        for ic in ({'mod_add_long_ifdef_endif_comment': '1'}, {'mod_add_long_ifdef_else_comment': '1'},
+                   {'mod_add_long_ifdef_endif_comment': '3', 'mod_add_long_ifdef_else_comment': '3'}):
+            for lang in ('C', 'CPP'):
+                cases.append(family.Case(src.encode(), lang, dict(ic), {'kind': 'ifdef-shape', 'file': 'shape:' + name}))
     raw = family.explore(ctx, judge, cases)
     raw += family.hyp_explore(ctx, judge, make_strategy, to_case, shards=16, examples=(250 if quick else 5000))
     family.triage(ctx, judge, raw)
